@@ -178,8 +178,9 @@ class Gen:
         elif k == "depstyle":      # the declared style alone (the body keeps writing the format it wrote before)
             if c["reads"]: c["_depstyle"] = "depinfo" if c["_depstyle"] == "makefile" else "makefile"
         elif k == "dupout":        # a second command claims the same output: the node cannot be built (an error, not a crash)
-            c2 = copy.deepcopy(c); c2["tag"] = c["tag"] + "d"; c2["reads"] = []; c2["failif"] = ""
-            d["cmds"][n + "d"] = c2; d["order"].append(n + "d")
+            if n + "d" not in d["cmds"]:
+                c2 = copy.deepcopy(c); c2["tag"] = c["tag"] + "d"; c2["reads"] = []; c2["failif"] = ""
+                d["cmds"][n + "d"] = c2; d["order"].append(n + "d")
         elif k == "argsplit":      # move the boundary between two adjacent arguments across a blank inside one of them
             if c["_extra"][-2:] == ["x y", "z"]: c["_extra"] = c["_extra"][:-2] + ["x", "y z"]
             elif c["_extra"][-2:] == ["x", "y z"]: c["_extra"] = c["_extra"][:-2] + ["x y", "z"]
